@@ -2805,8 +2805,11 @@ PIP_Solution_Node::solve(const PIP_Problem& pip,
         }
         // Check compatibility for constraint t_i(z) < 0,
         // i.e., -t_i(z) - 1 >= 0.
+        // NOTE: t_i is the (integer valued) numerator of the parametric
+        // row, whose value t_i(z)/tableau_denom is not necessarily
+        // integral: the complement has to be computed on the numerator.
         Row t_i_complement(num_params);
-        complement_assign(t_i_complement, t_i, tableau_denom);
+        complement_assign(t_i_complement, t_i, 1);
         if (compatibility_check(ctx, t_i_complement)) {
           new_sign = (new_sign == POSITIVE) ? MIXED : NEGATIVE;
         }
@@ -2857,12 +2860,10 @@ PIP_Solution_Node::solve(const PIP_Problem& pip,
         if (!has_positive) {
           continue;
         }
-        // Check compatibility of constraint t_i(z) > 0.
+        // Check compatibility of constraint t_i(z) > 0,
+        // i.e., t_i(z) - 1 >= 0 (see the note above).
         Row row(tableau.t[i]);
-        PPL_DIRTY_TEMP_COEFFICIENT(mod);
-        Coefficient& row0 = row[0];
-        pos_rem_assign(mod, row0, tableau_denom);
-        row0 -= (mod == 0) ? tableau_denom : mod;
+        --row[0];
         WEIGHT_ADD(210);
         const bool compatible = compatibility_check(ctx, row);
         // Maybe update sign (and first_* indices).
